@@ -47,6 +47,8 @@ var c07Templates = []struct {
 	{"*Rec1", func() interface{} { return &gen.Rec1{} }},
 	{"Chain (embeds *Chain)", func() interface{} { return gen.Chain{} }},
 	{"[]*Chain", func() interface{} { return []*gen.Chain{} }},
+	{"SelfSlice (type T []T)", func() interface{} { return gen.SelfSlice{} }},
+	{"*SelfPtrSlice (type T []*T)", func() interface{} { return &gen.SelfPtrSlice{} }},
 	{"chan int", func() interface{} { return (chan int)(nil) }},
 	{"func()", func() interface{} { return (func())(nil) }},
 	{"complex128", func() interface{} { return complex128(0) }},
